@@ -451,7 +451,7 @@ func (e *Engine) scenario(s *State, cm *CachedModel, ob string) *Scenario {
 		if strings.HasPrefix(en.Tag, "addr|") && en.Kind == "app" && i+1 < len(s.W.Evals) {
 			str, ok1 := evalStr(i)
 			by, ok2 := evalStr(i + 1)
-			if ok1 && ok2 && len(by) == 20 && len(str) == 42 {
+			if ok1 && ok2 && (len(by) == 20 && len(str) == 42 || len(by) == 32 && len(str) == 62) {
 				rename[str] = Bech32Encode("jkl", []byte(by))
 				// is this spelling the canonical one (the value of AccAddress.String()) in the model?
 				if cv, ok := cm.Eval(App("b32enc", s.W.Evals[i+1].T)); ok && cv.S != nil && *cv.S == str {
